@@ -11,6 +11,7 @@
 
 use crate::common::Ctx;
 use crate::fam::{Fam, KeyF, ValF};
+use crate::common::Hinted;
 use micromap::{Entry, Map, Set};
 use support::elems::{z_live, z_set_eq, Z};
 use support::fault::{self, Caught};
@@ -435,21 +436,43 @@ impl<'a> Full<'a> {
             ledger::set_ctx(self.case_no, 0, name);
             self.cx.rep.evaluations += 1;
             self.cx.rep.hit(&format!("{}:N={}", name, if N >= 8 { "8+".to_string() } else { N.to_string() }));
+            // the source's size_hint takes every shape, including lying ones: whatever it claims, the
+            // (N+1)-th distinct key must be rejected by a panic and nothing may be written past the array
+            let mode = rng.usize_below(crate::common::HINT_MODES.len()) as u8;
+            self.cx.rep.hit(&format!("overflow-source-hint:{}", crate::common::HINT_MODES[mode as usize]));
+            let mut holder_ok = true;
             let r = if is_set {
                 let items: Vec<F::K> = seq.iter().enumerate().map(|(i, c)| F::K::mk(*c, i as u32)).collect();
-                fault::catch(|| {
-                    let s: Set<F::K, N> = items.into_iter().collect();
-                    drop(s);
-                })
+                if rng.chance(1, 2) {
+                    fault::catch(|| {
+                        let s: Set<F::K, N> = Hinted { it: items.into_iter(), mode }.collect();
+                        drop(s);
+                    })
+                } else {
+                    // Set::extend into an (empty) set that sits between canaries
+                    let mut h = Holder::new(Set::<F::K, N>::new(), self.exact);
+                    let res = fault::catch(|| h.get_mut().extend(Hinted { it: items.into_iter(), mode }));
+                    holder_ok = h.canaries_ok() && h.get().len() <= N;
+                    if holder_ok {
+                        drop(h);
+                    } else {
+                        std::mem::forget(h);
+                    }
+                    res
+                }
             } else {
                 let items: Vec<(F::K, F::V)> = seq.iter().enumerate().map(|(i, c)| (F::K::mk(*c, i as u32), F::V::mk(i as u32))).collect();
                 fault::catch(|| {
-                    let m: Map<F::K, F::V, N> = items.into_iter().collect();
+                    let m: Map<F::K, F::V, N> = Hinted { it: items.into_iter(), mode }.collect();
                     drop(m);
                 })
             };
+            if !holder_ok {
+                v("canary", format!("{} with N={} items {:?} source hint {}: memory outside the set was written or len() exceeds N", name, N, seq, crate::common::HINT_MODES[mode as usize]));
+            }
             if !r.panicked() {
-                v("no-panic-on-full", format!("{} with N={} and item classes {:?} ({} distinct) returned instead of panicking", name, N, seq, N + extra));
+                v("no-panic-on-full", format!("{} with N={} and item classes {:?} ({} distinct), source size_hint {} returned instead of panicking", name, N, seq, N + extra, crate::common::HINT_MODES[mode as usize]));
+                // a container that swallowed more than N keys is not one whose destructor we want to run
             }
             if F::TRACKED && ledger::alive_count() != 0 {
                 v("leak-after-overflow", format!("{} N={} items {:?}: {} objects alive after the panic unwound (items must be destroyed exactly once)", name, N, seq, ledger::alive_count()));
@@ -482,16 +505,18 @@ impl<'a> Full<'a> {
             let (r, len) = if is_set {
                 let items: Vec<F::K> = seq.iter().enumerate().map(|(i, c)| F::K::mk(*c, i as u32)).collect();
                 let mut len = 0;
+                let mode = rng.usize_below(4) as u8; // honest hint shapes only: the sequence must be accepted
                 let r = fault::catch(|| {
-                    let s: Set<F::K, N> = items.into_iter().collect();
+                    let s: Set<F::K, N> = Hinted { it: items.into_iter(), mode }.collect();
                     len = s.len();
                 });
                 (r, len)
             } else {
                 let items: Vec<(F::K, F::V)> = seq.iter().enumerate().map(|(i, c)| (F::K::mk(*c, i as u32), F::V::mk(i as u32))).collect();
                 let mut len = 0;
+                let mode = rng.usize_below(4) as u8;
                 let r = fault::catch(|| {
-                    let m: Map<F::K, F::V, N> = items.into_iter().collect();
+                    let m: Map<F::K, F::V, N> = Hinted { it: items.into_iter(), mode }.collect();
                     len = m.len();
                 });
                 (r, len)
